@@ -6,7 +6,7 @@ from hypothesis import strategies as st
 
 from engine import lib, scen, spec_order, xforms, zz9enc
 from engine.oracle import Oracle, apparent_dims, empty_cols, empty_rows, empty_strand_rows
-from engine.runner import SubCheck
+from engine.runner import SubCheck, fuzz_subcheck
 from props.c07 import _refs
 
 PROPERTY = "C08"
@@ -349,4 +349,5 @@ SUBCHECKS = [
     SubCheck("slices", case_st(SHAPES), judge, quick=8000, thorough=100000),
     SubCheck("strands", case_st([("cat",), ("mr",), ("mr",), ("mr",), ("cat_date",), ("na",)],
                                 strand=True), judge, quick=8000, thorough=100000),
+    fuzz_subcheck("fuzz-slices", "slices", quick_runs=0, thorough_runs=8000),
 ]
